@@ -233,7 +233,7 @@ func runC13(c *fw.C) {
 							mod(key)
 						}
 						batch = append(batch, fmt.Sprintf("insert %v", key))
-					} else if x == 1 {
+					} else if x == 1 && !cfg.VK.Single {
 						j := r.Intn(s.M.Len())
 						key := s.M.Keys[j]
 						nv := diffValOf(cfg.VK, r, s.M.Vals[j])
@@ -338,6 +338,9 @@ func runC13(c *fw.C) {
 }
 
 func diffValOf(vk *kinds.ValKind, r *fw.Rng, v interface{}) interface{} {
+	if vk.Single {
+		return "some other value"
+	}
 	for {
 		nv := vk.Gen(r)
 		if !deepEq(nv, v) {
